@@ -28,12 +28,55 @@ pub const TYPE_TABLE: [(Type, u8); 12] = [
     (Type::NetworkNamespace, 0x30),
 ];
 
+/// Constructor families: 0..3 = typed Addresses values; 0x11 / 0x12 = an IPv4 / IPv6 pair of
+/// `SocketAddr`s handed to `with_addresses` as a tuple (what accept() / peer_addr() give).
 pub fn family_size(fam: u8) -> usize {
-    match fam {
+    match fam & 0x0f {
         1 => 12,
         2 => 36,
         3 => 216,
         _ => 0,
+    }
+}
+
+/// Address block of a constructor. Socket-address pairs are link-local (fe80::/10) with a
+/// non-zero scope id for one fill in four: the block on the wire does not depend on the scope.
+fn ctor_addr_bytes(fam: u8, f: &Fill) -> Vec<u8> {
+    let mut v = addr_fill(fam, f);
+    if fam == 0x12 && f.seed % 4 == 0 {
+        for base in [0usize, 16] {
+            v[base] = 0xfe;
+            v[base + 1] = 0x80;
+            for b in v[base + 2..base + 8].iter_mut() {
+                *b = 0;
+            }
+        }
+    }
+    v
+}
+
+fn socket_pair(fam: u8, bytes: &[u8], seed: u64) -> (std::net::SocketAddr, std::net::SocketAddr) {
+    use std::net::{Ipv4Addr, Ipv6Addr, SocketAddr, SocketAddrV4, SocketAddrV6};
+    if fam == 0x11 {
+        let s = SocketAddrV4::new(
+            Ipv4Addr::new(bytes[0], bytes[1], bytes[2], bytes[3]),
+            u16::from_be_bytes([bytes[8], bytes[9]]),
+        );
+        let d = SocketAddrV4::new(
+            Ipv4Addr::new(bytes[4], bytes[5], bytes[6], bytes[7]),
+            u16::from_be_bytes([bytes[10], bytes[11]]),
+        );
+        (SocketAddr::V4(s), SocketAddr::V4(d))
+    } else {
+        let mut a = [0u8; 16];
+        let mut b = [0u8; 16];
+        a.copy_from_slice(&bytes[..16]);
+        b.copy_from_slice(&bytes[16..32]);
+        let scope = if seed % 2 == 0 { (seed >> 8) as u32 % 7 } else { 0 };
+        let flow = if seed % 3 == 0 { (seed >> 16) as u32 & 0xfffff } else { 0 };
+        let s = SocketAddrV6::new(Ipv6Addr::from(a), u16::from_be_bytes([bytes[32], bytes[33]]), flow, scope);
+        let d = SocketAddrV6::new(Ipv6Addr::from(b), u16::from_be_bytes([bytes[34], bytes[35]]), flow, scope);
+        (SocketAddr::V6(s), SocketAddr::V6(d))
     }
 }
 
@@ -165,7 +208,11 @@ pub fn run_model(ctor: &Ctor, ops: &[BOp]) -> Model {
             proto,
             fam,
             fill,
-        } => (*vc, (fam << 4) | (proto & 0x0f), addr_fill(*fam, fill)),
+        } => (
+            *vc,
+            ((fam & 0x0f) << 4) | (proto & 0x0f),
+            ctor_addr_bytes(*fam, fill),
+        ),
     };
     let mut m = Model {
         vc,
@@ -315,7 +362,15 @@ fn to_p<'a>(p: &Payload, data: &'a [u8]) -> P<'a> {
         Payload::Isize(x) => P::Isize(*x),
         Payload::Slice(_) => P::Slice(data),
         Payload::Addr(fam, _) => P::Addr(addresses_from(*fam, data)),
-        Payload::TlvStruct(k, _) => P::Tlv(TypeLengthValue::new(*k, data)),
+        Payload::TlvStruct(k, f) => {
+            let t = TypeLengthValue::new(*k, data);
+            // one in three is an owned value (what to_owned() on a parsed TLV gives)
+            if f.seed % 3 == 0 {
+                P::Tlv(t.to_owned())
+            } else {
+                P::Tlv(t)
+            }
+        }
         Payload::TlvTuple(k, _) => P::Tuple((*k, data)),
         Payload::TlvTyped(i, _) => P::Typed((TYPE_TABLE[*i as usize % 12].0, data)),
         Payload::Section(_) => P::Section(TypeLengthValues::from(data)),
@@ -367,8 +422,9 @@ pub fn run_real(ctor: &Ctor, ops: &[BOp]) -> RealOutcome {
                 1 => Protocol::Stream,
                 _ => Protocol::Datagram,
             };
-            let bytes = addr_fill(*fam, fill);
+            let bytes = ctor_addr_bytes(*fam, fill);
             match fam {
+                0x11 | 0x12 => Builder::with_addresses(*vc, protocol, socket_pair(*fam, &bytes, fill.seed)),
                 // exercise the From<IPv4 / IPv6 / Unix> conversions as a caller would
                 1 => match addresses_from(1, &bytes) {
                     Addresses::IPv4(a) => Builder::with_addresses(*vc, protocol, a),
@@ -396,8 +452,13 @@ pub fn run_real(ctor: &Ctor, ops: &[BOp]) -> RealOutcome {
                 // caller would naturally use it
                 let r = match p {
                     Payload::Slice(_) => b.write_payload(data.as_slice()),
-                    Payload::TlvStruct(k, _) => {
-                        b.write_payload(TypeLengthValue::new(*k, data.as_slice()))
+                    Payload::TlvStruct(k, f) => {
+                        let t = TypeLengthValue::new(*k, data.as_slice());
+                        match f.seed % 3 {
+                            0 => b.write_payload(t.to_owned()),
+                            1 => b.write_payload(&t),
+                            _ => b.write_payload(t),
+                        }
                     }
                     Payload::TlvTuple(k, _) => b.write_payload((*k, data.as_slice())),
                     Payload::U32(x) => b.write_payload(*x),
@@ -420,7 +481,14 @@ pub fn run_real(ctor: &Ctor, ops: &[BOp]) -> RealOutcome {
                         .iter()
                         .zip(datas.iter())
                         .map(|(p, d)| match p {
-                            Payload::TlvStruct(k, _) => TypeLengthValue::new(*k, d.as_slice()),
+                            Payload::TlvStruct(k, f) => {
+                                let t = TypeLengthValue::new(*k, d.as_slice());
+                                if f.seed % 3 == 0 {
+                                    t.to_owned()
+                                } else {
+                                    t
+                                }
+                            }
                             _ => unreachable!(),
                         })
                         .collect();
@@ -587,7 +655,7 @@ pub fn gen_ctor(rng: &mut Rng) -> Ctor {
         Ctor::WithAddresses {
             vc: 0x20 | rng.below(2) as u8,
             proto: rng.below(3) as u8,
-            fam: rng.below(4) as u8,
+            fam: *rng.pick(&[0u8, 1, 2, 3, 1, 2, 0x11, 0x12]),
             fill: Fill {
                 len: 0,
                 seed: rng.next_u64(),
@@ -611,7 +679,7 @@ pub fn gen_history(rng: &mut Rng, sc: &mut Scenario) {
                 Ctor::WithAddresses {
                     vc: 0x20,
                     proto: rng.below(3) as u8,
-                    fam: if rng.chance(3, 4) { 0 } else { rng.range(1, 3) as u8 },
+                    fam: if rng.chance(3, 4) { 0 } else { *rng.pick(&[1u8, 2, 3, 0x11, 0x12]) },
                     fill: Fill {
                         len: 0,
                         seed: rng.next_u64(),
